@@ -1,5 +1,6 @@
 import SakuraVerif.Model.Tie
 import SakuraVerif.Lemmas.ExecTie
+import SakuraVerif.Lemmas.ExecRestLike
 /-! # C13 — ties and slurs join notes as documented
 
 The four flush functions of `runner.rs` are modelled as pure functions from the tied group (the
@@ -171,6 +172,15 @@ theorem C13_pointer_with_tie (s : Ex2.Song) (tk : Lx.Tok) (x : Lx.SV) (hh : s.ha
   have a := congrArg (fun t : Ex2.Trk => t.timepos) h4
   have b := congrArg (fun z : Ex2.Song => z.seed) h1
   exact ⟨a, b⟩
+
+/-- **the notes after the group are the same as if the group had been a rest of equal length** — one note at a time: in a quiet state
+    (outside a chord, no pending octave-once mark, Random settings off: `Ex2.Quiet`) a note, tied or not, leaves the song exactly
+    where a rest of the note's length leaves it, except for what the note itself writes (event list, pending group, bend range).
+    By induction over the notes of a group, whatever follows the group runs from the state a rest of the group's length leaves. -/
+theorem C13_note_is_a_rest_for_what_follows (s : Ex2.Song) (tk : Lx.Tok) (hq : Ex2.Quiet s) (h8 : 8 ≤ tk.data.length) :
+    Ex2.sameButWritten (Ex2.execNote s tk)
+      (s.setT { s.t with timepos := s.t.timepos + Len.calcLength s.tb s.t.length (Ex2.dataS tk.data 2) }) :=
+  Ex2.execNote_like_rest s tk hq h8
 
 -- non-vacuity: the fresh song is outside a chord and its selected track exists
 example : ({} : Ex2.Song).harmonyFlag = false ∧ ({} : Ex2.Song).cur < ({} : Ex2.Song).tracks.length := by decide
